@@ -474,6 +474,9 @@ package vnet
 //@ pure (m *udpConnMap) wf(p int) bool = len(m.portMap[p]) > 0 &&
 //@      (forall i mathint :: {m.portMap[p][i]} 0 <= i && i < len(m.portMap[p]) ==> m.portMap[p][i] != nil && m.portMap[p][i].locAddr != nil && m.portMap[p][i].locAddr.Port == p)
 //@ invariant (m *udpConnMap) table: m.portMap != nil && forall p int :: {p in m.portMap} p in m.portMap ==> m.wf(p)
+// the socket lists of different ports never share a backing array (append may grow a list in place)
+//@ invariant (m *udpConnMap) sep: forall p int, q int :: {p in m.portMap, q in m.portMap} (p in m.portMap) && (q in m.portMap) && p != q ==> base(m.portMap[p]) != base(m.portMap[q])
+//@ invariant (m *udpConnMap) alloc: forall p int :: {p in m.portMap} (p in m.portMap) ==> allocated(base(m.portMap[p]))
 
 //@ func (m *udpConnMap) insert(conn *UDPConn) (err error)
 //@   requires conn != nil && conn.locAddr != nil
@@ -519,6 +522,7 @@ package vnet
 //@   ensures [others] forall p int :: {p in m.portMap} p != ptr(addr, *net.UDPAddr).Port ==> (p in m.portMap) == atlock(p in m.portMap) && m.portMap[p] == atlock(m.portMap[p])
 //@   ensures [nosuch] err == errNoSuchUDPConn ==> !atlock(ptr(addr, *net.UDPAddr).Port in m.portMap)
 //@   loop 1 invariant [scan] held(m.mutex) && m.inv() && 0 <= rangeindex + 1 && rangeindex < len(conns) && len(newConns) >= 0 &&
+//@            !atlock(allocated(base(newConns))) &&
 //@            (forall p int :: {p in m.portMap} (p in m.portMap) == atlock(p in m.portMap) && m.portMap[p] == atlock(m.portMap[p])) &&
 //@            (forall k mathint :: {newConns[k]} 0 <= k && k < len(newConns) ==> newConns[k] != nil && newConns[k].locAddr != nil &&
 //@                  newConns[k].locAddr.Port == ptr(addr, *net.UDPAddr).Port &&
